@@ -504,6 +504,12 @@ def judge_loop(fmt, k, values, o, st, direct=True, cfg=(0, False)):
         st['unspecified'][res[1]] = st['unspecified'].get(res[1], 0) + 1
         e = o['end'].split(':')[0]
         st['unspecified_ends'][e] = st['unspecified_ends'].get(e, 0) + 1
+        if e == 'hostexc':
+            feat = {'family': 'loop', 'divergence': 'host-exception', 'reason': res[1], 'end': o['end'],
+                    'types': types}
+            feat.update(shape_features(fmt))
+            viol.append((feat, case, 'an unspecified statement prints something or ends in a reported run-time '
+                         'error (trap)', {'end': o['end'], 'where': o['where']}, size))
     else:
         _count_must(res, st)
         if o['text'] is None:
@@ -531,7 +537,10 @@ def judge_loop(fmt, k, values, o, st, direct=True, cfg=(0, False)):
         if d[0] == 'text':
             same = o['text'] is not None and (o['text'][:-2] if not ending else o['text']) == d[1]
         else:
-            same = o['text'] is None and o['end'] == 'hostexc:' + d[1]
+            # the formatter refuses the values: the statement must end in a reported
+            # run-time error (any trap), not print, and not die with a host exception
+            same = o['text'] is None and o['end'].startswith('trap:')
+            st['refused_by_both'] += 1 if same else 0
         if not same:
             viol.append(({'family': 'loop', 'divergence': 'direct-vs-compiled', 'fields': U.field_kinds(fmt),
                           'types': types}, case, {'direct': list(d)},
@@ -580,7 +589,7 @@ def _dedupe(viol, st):
 def _new_stats():
     return {'evaluations': 0, 'must': 0, 'agree': 0, 'must_with_alternatives': 0, 'ties': 0,
             'overflow_fields': 0, 'unspecified': {}, 'unspecified_ends': {}, 'texts': set(),
-            'direct_compared': 0, 'machines': 0, 'formats': 0}
+            'direct_compared': 0, 'refused_by_both': 0, 'machines': 0, 'formats': 0}
 
 
 def loop_chunk(chunk):
